@@ -262,6 +262,11 @@ func (d *diff) getRange(r Range) (rr RangeResult) {
 		rr.Elements = append(rr.Elements, elem)
 	}
 	rr.Count = len(rr.Elements)
+	if rng == nil {
+		// no division for this range: its hash is the hash of its elements, so that it can be
+		// compared with the hash of an undivided range of the other side (and is nil only when empty)
+		rr.Hash, _ = d.ranges.calcElementsHash(r.From, r.To)
+	}
 	return
 }
 
